@@ -304,6 +304,18 @@ def generate(rng, tier):
     for name, bs in WITNESSES.items():
         for S in ({0}, {1}, {0, 1, 2, 3, 4}):
             cases.append(stream_case(bytes(bs).hex(), S, "theorem witness " + name, ("given:theorem-witness", "given:" + name)))
+    # ---- (e) legacy mesh streams (bitstream 1.0 .. 2.1) re-laid out from 2.2 streams of the real encoder
+    #          (props/meshlegacy.py): the three decodes and the consumer side on every version's layout
+    try:
+        from . import meshlegacy
+        vs, _ = meshlegacy.variants(rng, tier, n_bases=6 if not thorough else 40)
+        for kind, ver, b, v, d in vs:
+            for S in ({0}, {1, 3}, {0, 1, 2, 3, 4}):
+                cases.append(stream_case(v.hex(), S, f"{kind} mesh re-laid out as {ver[0]}.{ver[1]}",
+                                         ("given:meshlegacy", f"given:meshlegacy:v{ver[0]}.{ver[1]}")))
+    except Exception as ex:       # noqa: BLE001 - optional family
+        from vlib import common as C
+        C.log(f"[C10] meshlegacy not used: {ex}")
     cases += apply_cases(cases)
     return cases
 
